@@ -335,7 +335,15 @@ static ares_status_t ares_qcache_insert_int(ares_qcache_t           *qcache,
    * otherwise skipped when looking for the smallest TTL. */
   if (rcode == ARES_RCODE_NXDOMAIN ||
       ares_dns_record_rr_cnt(qresp, ARES_SECTION_ANSWER) == 0) {
+    unsigned int minttl = ares_qcache_calc_minttl(qresp);
+
     ttl = ares_qcache_soa_minimum(qresp);
+    /* Whatever else the response carries (a CNAME in front of the NXDOMAIN,
+     * the zone's NS records and their addresses) is replayed with it and must
+     * not outlive its own TTL either */
+    if (minttl < ttl) {
+      ttl = minttl;
+    }
   } else {
     ttl = ares_qcache_calc_minttl(qresp);
   }
